@@ -269,4 +269,389 @@ theorem stationary_once_per_workable_day (c : Cfg) (hc : c.sites.Nodup) (hk : c.
     · simp [hq]
     · simp [hiss]
 
+/-! ### 3. all of them when feasible -/
+
+def mdLt (a b : Nat × Nat) : Prop := a.1 < b.1 ∨ (a.1 = b.1 ∧ a.2 < b.2)
+
+def md (d : DayIn) : Nat × Nat := (d.date.m, d.date.d)
+
+/-- crews suffice for every outstanding request and every planned survey completes the same day -/
+def Feasible (c : Cfg) (d : DayIn) : Prop :=
+  c.sites.length ≤ c.crews * c.cap ∧ ∀ i, d.out i = .completed
+
+/-- nothing outstanding -/
+def Quiet (s : State) : Prop := ∀ i, (s.pl i).queued = false
+
+theorem quiet_queue_empty (s : State) (h : Inv s) (hq : Quiet s) : s.q.entries = [] := by
+  cases he : s.q.entries with
+  | nil => rfl
+  | cons e es =>
+    have : e.site ∈ s.q.sites := (mem_sites_iff _ _).2 ⟨e, by simp [he], rfl⟩
+    have := (h.flag e.site).2 this
+    rw [hq e.site] at this
+    exact Bool.noConfusion this
+
+/-- on a feasible day that starts with nothing outstanding, exactly the requests issued today are
+planned and completed, and nothing is outstanding afterwards -/
+theorem feasible_day (c : Cfg) (hc : c.sites.Nodup) (hk : c.kind = .routine) (d : DayIn) (s : State)
+    (hi : Inv s) (hq : Quiet s) (hf : Feasible c d) :
+    (∀ i, completesAt c d s i = decide (i ∈ issued c d.date s)) ∧ Quiet (scheduleDay c d s) := by
+  have h1 := inv_request c hc d.date s hi
+  have hperm := requests_enter_queue c d.date s hi
+  have hempty : s.q.sites = [] := by unfold Queue.sites; rw [quiet_queue_empty s hi hq]; rfl
+  rw [hempty, List.nil_append] at hperm
+  have hlen : (requestPhase c d.date s).q.entries.length ≤ c.crews * c.cap := by
+    have h2 : (requestPhase c d.date s).q.entries.length = (issued c d.date s).length := by
+      have := hperm.length_eq
+      simpa [Queue.sites] using this
+    have h3 : (issued c d.date s).length ≤ c.sites.length := List.length_filter_le _ _
+    have := hf.1
+    omega
+  have hkeys : planKeys c (requestPhase c d.date s) = (requestPhase c d.date s).q.sites := by
+    rw [planKeys_eq c _ h1]
+    simp only [takeCount, hk, Queue.sites]
+    rw [List.take_of_length_le hlen]
+  have hcomp : ∀ i, completesAt c d s i = decide (i ∈ issued c d.date s) := by
+    intro i
+    unfold completesAt
+    rw [hkeys]
+    by_cases hiss : i ∈ issued c d.date s
+    · have hin : i ∈ (requestPhase c d.date s).q.sites := hperm.mem_iff.2 hiss
+      have hin' : i ∈ planKeys c (requestPhase c d.date s) := hkeys ▸ hin
+      simp only [hin, hiss, decide_true, Bool.true_and]
+      unfold deployed
+      simp only [hin', if_true, hf.2 i]
+      simp [applyOutcome, isComplete]
+    · have hin : i ∉ (requestPhase c d.date s).q.sites := fun h => hiss (hperm.mem_iff.1 h)
+      simp [hin, hiss]
+  refine ⟨hcomp, ?_⟩
+  intro i
+  rw [(day_site c d s i).2, hcomp i, request_queued, hq i]
+  by_cases hiss : i ∈ issued c d.date s <;> simp [hiss]
+
+/-- the counter of one site over the days of one year when every day is feasible -/
+def kStep (p : PlannerP) (k : Nat) (t : Nat × Nat) : Nat :=
+  if t.1 ∈ p.months ∧ k < p.rs ∧ (∃ pd, p.plan[k]? = some pd ∧ mdLe pd t) then k + 1 else k
+
+theorem feasible_year (c : Cfg) (hc : c.sites.Nodup) (hk : c.kind = .routine) (i : Nat) (his : i ∈ c.sites)
+    (y : Nat) (hy : y ∈ (c.P i).depYears ∧ y ∈ (c.P i).simYears) (yr : List DayIn) (s : State)
+    (hi : Inv s) (hq : Quiet s) (hf : ∀ d ∈ yr, Feasible c d) (hyr : ∀ d ∈ yr, d.date.y = y) :
+    done ((yr.foldl (fun s d => scheduleDay c d s) s).pl i) y
+      = (yr.map md).foldl (kStep (c.P i)) (done (s.pl i) y) := by
+  induction yr generalizing s with
+  | nil => rfl
+  | cons d ds ih =>
+    simp only [List.foldl_cons, List.map_cons]
+    have hfd := feasible_day c hc hk d s hi hq (hf d (by simp))
+    have hdy : d.date.y = y := hyr d (by simp)
+    have hstep : done ((scheduleDay c d s).pl i) y = kStep (c.P i) (done (s.pl i) y) (md d) := by
+      unfold done
+      rw [(day_site c d s i).1, hfd.1 i]
+      have hreq : required (c.P i) y = (c.P i).rs := by unfold required; simp [hy.1, hy.2]
+      have hiss : i ∈ issued c d.date s ↔
+          ((md d).1 ∈ (c.P i).months ∧ List.count y (s.pl i).log < (c.P i).rs ∧
+            ∃ pd, (c.P i).plan[List.count y (s.pl i).log]? = some pd ∧ mdLe pd (md d)) := by
+        unfold issued
+        rw [List.mem_filter]
+        simp only [his, true_and, guardK, hk, guardRoutine, hdy, hy.1, decide_true, Bool.true_and, hq i,
+          Bool.not_false, Bool.and_true, Bool.and_eq_true, decide_eq_true_eq, done, hreq, md]
+        constructor
+        · intro ⟨⟨h1, h2⟩, h3⟩
+          refine ⟨h1, h2, ?_⟩
+          cases hp : (c.P i).plan[List.count y (s.pl i).log]? with
+          | none => rw [hp] at h3; exact Bool.noConfusion h3
+          | some pd => rw [hp] at h3; exact ⟨pd, rfl, by simpa using h3⟩
+        · intro ⟨h1, h2, pd, hp, hle⟩
+          refine ⟨⟨h1, h2⟩, ?_⟩
+          rw [hp]; simpa using hle
+      unfold kStep
+      by_cases hc' : i ∈ issued c d.date s
+      · simp only [hc', decide_true, if_true, List.count_cons, hdy, BEq.rfl]
+        rw [if_pos (hiss.1 hc')]
+      · simp only [hc', decide_false, Bool.false_eq_true, if_false]
+        rw [if_neg (fun h => hc' (hiss.2 h))]
+    rw [← hstep]
+    exact ih (scheduleDay c d s) (inv_scheduleDay c hc d s hi) hfd.2
+      (fun d' hd' => hf d' (by simp [hd'])) (fun d' hd' => hyr d' (by simp [hd']))
+
+theorem mdLe_refl (a : Nat × Nat) : mdLe a a := by unfold mdLe; omega
+
+theorem mdLt_not_le {a b : Nat × Nat} (h : mdLt a b) : ¬ mdLe b a := by unfold mdLt mdLe at *; omega
+
+theorem mdLt_ne {a b : Nat × Nat} (h : mdLt a b) : a ≠ b := by
+  intro he; subst he; unfold mdLt at h; omega
+
+theorem mdLt_trans {a b c : Nat × Nat} (h1 : mdLt a b) (h2 : mdLt b c) : mdLt a c := by
+  unfold mdLt at *; omega
+
+/-- the pure counting argument: dates strictly increasing, plan strictly increasing, every plan date
+from index `k` on is still among the coming dates and lies in a deployment month ⇒ the counter ends
+at the number of plan dates -/
+theorem year_count (p : PlannerP) (hlen : p.plan.length = p.rs) (hps : p.plan.Pairwise mdLt)
+    (dates : List (Nat × Nat)) (k : Nat) (hk : k ≤ p.plan.length) (hds : dates.Pairwise mdLt)
+    (hin : ∀ pd ∈ p.plan.drop k, pd ∈ dates ∧ pd.1 ∈ p.months) :
+    dates.foldl (kStep p) k = p.plan.length := by
+  induction dates generalizing k with
+  | nil =>
+    simp only [List.foldl_nil]
+    cases hd : p.plan.drop k with
+    | nil => have := List.drop_eq_nil_iff.1 hd; omega
+    | cons x xs => have := (hin x (by simp [hd])).1; simp at this
+  | cons t ts ih =>
+    simp only [List.foldl_cons]
+    rw [List.pairwise_cons] at hds
+    by_cases hkl : k = p.plan.length
+    · have hstay : kStep p k t = k := by unfold kStep; rw [if_neg]; omega
+      rw [hstay]
+      apply ih k hk hds.2
+      intro pd hpd
+      rw [hkl, List.drop_length] at hpd
+      simp at hpd
+    · have hklt : k < p.plan.length := by omega
+      have hdrop : p.plan.drop k = p.plan[k] :: p.plan.drop (k + 1) := List.drop_eq_getElem_cons hklt
+      have hget : p.plan[k]? = some p.plan[k] := List.getElem?_eq_getElem hklt
+      have hpdrop : (p.plan.drop k).Pairwise mdLt := hps.sublist (List.drop_sublist _ _)
+      rw [hdrop, List.pairwise_cons] at hpdrop
+      have hmemk : p.plan[k] ∈ p.plan.drop k := by
+        rw [List.mem_drop_iff_getElem]; exact ⟨0, by simpa using hklt, by simp⟩
+      have hpk := hin p.plan[k] hmemk
+      rcases List.mem_cons.1 hpk.1 with heq | hmem
+      · -- today is the next plan date
+        have hstep : kStep p k t = k + 1 := by
+          unfold kStep
+          rw [if_pos]
+          refine ⟨heq ▸ hpk.2, by omega, p.plan[k], hget, ?_⟩
+          rw [heq]; exact mdLe_refl _
+        rw [hstep]
+        apply ih (k + 1) (by omega) hds.2
+        intro pd hpd
+        have hboth := hin pd (by rw [hdrop]; exact List.mem_cons_of_mem _ hpd)
+        refine ⟨?_, hboth.2⟩
+        rcases List.mem_cons.1 hboth.1 with h | h
+        · exact absurd (heq ▸ h ▸ hpdrop.1 pd hpd) (fun hl => (mdLt_ne hl) rfl)
+        · exact h
+      · -- the next plan date is still to come
+        have hlt : mdLt t p.plan[k] := hds.1 _ hmem
+        have hstay : kStep p k t = k := by
+          unfold kStep
+          rw [if_neg]
+          intro ⟨_, _, pd, hpd, hle⟩
+          rw [hget] at hpd
+          injection hpd with hpd
+          subst hpd
+          exact mdLt_not_le hlt hle
+        rw [hstay]
+        apply ih k hk hds.2
+        intro pd hpd
+        have hboth := hin pd hpd
+        refine ⟨?_, hboth.2⟩
+        rcases List.mem_cons.1 hboth.1 with h | h
+        · rw [hdrop] at hpd
+          rcases List.mem_cons.1 hpd with h2 | h2
+          · rw [h2] at h; exact absurd h.symm (mdLt_ne hlt)
+          · have := mdLt_trans hlt (hpdrop.1 pd h2)
+            exact absurd h.symm (mdLt_ne this)
+        · exact h
+
+/-- only years of simulated days are ever logged -/
+theorem log_years (c : Cfg) (ds : List DayIn) (s : State) (i y : Nat)
+    (hy : y ∈ ((ds.foldl (fun s d => scheduleDay c d s) s).pl i).log) :
+    y ∈ (s.pl i).log ∨ ∃ d ∈ ds, d.date.y = y := by
+  induction ds generalizing s with
+  | nil => left; exact hy
+  | cons d ds ih =>
+    simp only [List.foldl_cons] at hy
+    rcases ih _ hy with h | ⟨d', hd', he⟩
+    · rw [(day_site c d s i).1] at h
+      split at h
+      · rcases List.mem_cons.1 h with rfl | h
+        · right; exact ⟨d, by simp, rfl⟩
+        · left; exact h
+      · left; exact h
+    · right; exact ⟨d', by simp [hd'], he⟩
+
+theorem feasible_quiet (c : Cfg) (hc : c.sites.Nodup) (hk : c.kind = .routine) (ds : List DayIn) (s : State)
+    (hi : Inv s) (hq : Quiet s) (hf : ∀ d ∈ ds, Feasible c d) :
+    Inv (ds.foldl (fun s d => scheduleDay c d s) s) ∧ Quiet (ds.foldl (fun s d => scheduleDay c d s) s) := by
+  induction ds generalizing s with
+  | nil => exact ⟨hi, hq⟩
+  | cons d ds ih =>
+    simp only [List.foldl_cons]
+    exact ih _ (inv_scheduleDay c hc d s hi) (feasible_day c hc hk d s hi hq (hf d (by simp))).2
+      (fun d' hd' => hf d' (by simp [hd']))
+
+/-- **all of them when feasible**: if on every day so far the crews sufficed and every planned survey
+completed the day it was requested, the plan dates are strictly increasing, each of them is a
+simulated day of year `y` and lies in a deployment month, and `y` is a deployment year of the
+simulation, then after the days of year `y` the site has exactly its required number of surveys -/
+theorem all_done_when_feasible (c : Cfg) (hc : c.sites.Nodup) (hk : c.kind = .routine) (i : Nat)
+    (his : i ∈ c.sites) (y : Nat) (hy : y ∈ (c.P i).depYears ∧ y ∈ (c.P i).simYears)
+    (pre yr : List DayIn) (hf : ∀ d ∈ pre ++ yr, Feasible c d)
+    (hpre : ∀ d ∈ pre, d.date.y ≠ y) (hyr : ∀ d ∈ yr, d.date.y = y)
+    (hdates : (yr.map md).Pairwise mdLt)
+    (hlen : (c.P i).plan.length = (c.P i).rs) (hplan : (c.P i).plan.Pairwise mdLt)
+    (hin : ∀ pd ∈ (c.P i).plan, pd ∈ yr.map md ∧ pd.1 ∈ (c.P i).months) :
+    done ((runDays c (pre ++ yr)).pl i) y = required (c.P i) y := by
+  unfold runDays
+  rw [List.foldl_append]
+  have hq0 : Quiet init := fun i => rfl
+  have hpreq := feasible_quiet c hc hk pre init inv_init hq0 (fun d hd => hf d (by simp [hd]))
+  have hzero : done ((pre.foldl (fun s d => scheduleDay c d s) init).pl i) y = 0 := by
+    unfold done
+    rw [List.count_eq_zero]
+    intro hmem
+    rcases log_years c pre init i y hmem with h | ⟨d, hd, he⟩
+    · simp [init] at h
+    · exact hpre d hd he
+  rw [feasible_year c hc hk i his y hy yr _ hpreq.1 hpreq.2 (fun d hd => hf d (by simp [hd])) hyr, hzero]
+  have hreq : required (c.P i) y = (c.P i).rs := by unfold required; simp [hy.1, hy.2]
+  rw [hreq, ← hlen]
+  exact year_count (c.P i) hlen hplan (yr.map md) 0 (Nat.zero_le _) hdates (by simpa using hin)
+
+/-! ### the property at full strength, and what is false of the code as it stands -/
+
+instance (a b : Nat × Nat) : Decidable (mdLt a b) := by unfold mdLt; infer_instance
+
+/-- never more than required (mobile routine), with no side condition -/
+def C06_count_statement : Prop :=
+  ∀ (c : Cfg) (ds : List DayIn), c.kind = .routine → c.sites.Nodup → Chrono ds →
+    ∀ i y, done ((runDays c ds).pl i) y ≤ required (c.P i) y
+
+/-- routine surveys take place only in deployment years and deployment months: whenever a planned
+site is worked on, the day lies in the site's deployment calendar -/
+def C06_calendar_statement : Prop :=
+  ∀ (c : Cfg) (ds : List DayIn) (d : DayIn), c.kind = .routine → c.sites.Nodup → Chrono (ds ++ [d]) →
+    ∀ i ∈ planOn c d (runDays c ds), d.out i ≠ .untouched →
+      d.date.y ∈ (c.P i).depYears ∧ d.date.m ∈ (c.P i).months
+
+/-- all of them when feasible, for *every* plan the planner may hold (one date per required survey,
+increasing, each a simulated day of the year) — nothing assumed about the months of the plan dates -/
+def C06_feasible_statement : Prop :=
+  ∀ (c : Cfg) (i y : Nat) (pre yr : List DayIn), c.kind = .routine → c.sites.Nodup → i ∈ c.sites →
+    (y ∈ (c.P i).depYears ∧ y ∈ (c.P i).simYears) → (∀ d ∈ pre ++ yr, Feasible c d) →
+    (∀ d ∈ pre, d.date.y ≠ y) → (∀ d ∈ yr, d.date.y = y) → (yr.map md).Pairwise mdLt →
+    (c.P i).plan.length = (c.P i).rs → (c.P i).plan.Pairwise mdLt →
+    (∀ pd ∈ (c.P i).plan, pd ∈ yr.map md) →
+    done ((runDays c (pre ++ yr)).pl i) y = required (c.P i) y
+
+/-- stationary: once per workable day -/
+def C06_stationary_statement : Prop :=
+  ∀ (c : Cfg) (ds : List DayIn) (d : DayIn), c.sites.Nodup → c.kind = .stationary →
+    (planOn c d (runDays c ds)).Nodup ∧
+    (∀ i ∈ c.sites, d.date.y ∈ (c.P i).depYears → d.date.m ∈ (c.P i).months →
+        0 < required (c.P i) d.date.y → i ∈ planOn c d (runDays c ds)) ∧
+    (∀ i, completesAt c d (runDays c ds) i = true ↔ (i ∈ planOn c d (runDays c ds) ∧ d.out i = .completed)) ∧
+    (∀ i y, done ((scheduleDay c d (runDays c ds)).pl i) y =
+        done ((runDays c ds).pl i) y + (if completesAt c d (runDays c ds) i = true ∧ y = d.date.y then 1 else 0))
+
+def C06_statement : Prop :=
+  C06_count_statement ∧ C06_calendar_statement ∧ C06_feasible_statement ∧ C06_stationary_statement
+
+theorem C06_stationary : C06_stationary_statement := by
+  intro c ds d hc hk
+  have := stationary_once_per_workable_day c hc hk ds d
+  exact ⟨this.1, this.2.2.1, this.2.2.2.1, this.2.2.2.2.1⟩
+
+/-- January-only deployment, one crew doing one site a day, two sites: both requests are issued on
+Jan 31, site 2 is not attended that day and is surveyed on Feb 1 — outside the deployment months
+(known finding F12) -/
+def cexCfg : Cfg :=
+  { kind := .routine, crews := 1, cap := 1, sites := [1, 2],
+    P := fun _ => { rs := 1, months := [1], depYears := [2024], simYears := [2024], plan := [(1, 1)],
+                    surveyTime := 60 } }
+
+def allCompleted : Nat → Outcome := fun _ => .completed
+
+theorem C06_calendar_counterexample : ¬ C06_calendar_statement := by
+  intro h
+  have := h cexCfg [{ date := ⟨2024, 1, 31⟩, out := allCompleted }] { date := ⟨2024, 2, 1⟩, out := allCompleted }
+    rfl (by decide) (by unfold Chrono; decide) 2 (by decide +kernel) (by decide)
+  revert this
+  decide +kernel
+
+theorem C06_counterexample : ¬ C06_statement := fun h => C06_calendar_counterexample h.2.1
+
+/-- deployment year 2024 only, simulation 2024–2025: a request issued on Dec 31 2024 and completed on
+Jan 1 2025 is booked on 2025, where 0 surveys are required (known finding F12, count side) -/
+def cexCount : Cfg :=
+  { kind := .routine, crews := 1, cap := 1, sites := [1, 2],
+    P := fun _ => { rs := 1, months := [1, 12], depYears := [2024], simYears := [2024, 2025],
+                    plan := [(1, 1)], surveyTime := 60 } }
+
+theorem C06_count_counterexample : ¬ C06_count_statement := by
+  intro h
+  have := h cexCount [{ date := ⟨2024, 12, 31⟩, out := allCompleted }, { date := ⟨2025, 1, 1⟩, out := allCompleted }]
+    rfl (by decide) (by unfold Chrono; decide) 2 2025
+  revert this
+  decide +kernel
+
+/-- deployment months February, May, October with 4 surveys per year: the plan of the real
+`_generate_evenly_spaced_dates` is Feb 1, Feb 23, May 17, **Nov 8** (regenerated from the source and
+compared on every run); November is not a deployment month, so even with unlimited crews only 3
+surveys happen (known finding F15) -/
+def cexGap : Cfg :=
+  { kind := .routine, crews := 1, cap := 5, sites := [1],
+    P := fun _ => { rs := 4, months := [2, 5, 10], depYears := [2024], simYears := [2024],
+                    plan := [(2, 1), (2, 23), (5, 17), (11, 8)], surveyTime := 60 } }
+
+def cexGapYear : List DayIn :=
+  [(1, 1), (2, 1), (2, 2), (2, 23), (5, 17), (5, 18), (10, 1), (10, 31), (11, 8), (11, 9), (12, 31)].map
+    (fun t => { date := ⟨2024, t.1, t.2⟩, out := allCompleted })
+
+theorem C06_feasible_counterexample : ¬ C06_feasible_statement := by
+  intro h
+  have := h cexGap 1 2024 [] cexGapYear rfl (by decide) (by decide) (by decide)
+    (by intro d hd
+        refine ⟨by decide, ?_⟩
+        simp only [List.nil_append, cexGapYear, List.mem_map] at hd
+        obtain ⟨t, _, rfl⟩ := hd
+        intro i; rfl)
+    (by intro d hd; simp at hd)
+    (by intro d hd
+        simp only [cexGapYear, List.mem_map] at hd
+        obtain ⟨t, _, rfl⟩ := hd
+        rfl)
+    (by decide +kernel) rfl (by decide +kernel) (by decide +kernel)
+  revert this
+  decide +kernel
+
+/-! ### non-vacuity -/
+
+/-- a full-calendar configuration satisfying every hypothesis of `all_done_when_feasible`:
+months Feb–May, 2 surveys, plan Feb 1 / Apr 1 -/
+def exOk : Cfg :=
+  { kind := .routine, crews := 1, cap := 3, sites := [1, 2],
+    P := fun _ => { rs := 2, months := [2, 3, 4, 5], depYears := [2024], simYears := [2024],
+                    plan := [(2, 1), (4, 1)], surveyTime := 60 } }
+
+def exOkYear : List DayIn :=
+  [(1, 31), (2, 1), (2, 2), (3, 31), (4, 1), (6, 1)].map (fun t => { date := ⟨2024, t.1, t.2⟩, out := allCompleted })
+
+example : done ((runDays exOk ([] ++ exOkYear)).pl 1) 2024 = required (exOk.P 1) 2024 := by
+  apply all_done_when_feasible exOk (by decide) rfl 1 (by decide) 2024 (by decide) [] exOkYear
+  · intro d hd
+    refine ⟨by decide, ?_⟩
+    simp only [List.nil_append, exOkYear, List.mem_map] at hd
+    obtain ⟨t, _, rfl⟩ := hd
+    intro i; rfl
+  · intro d hd; simp at hd
+  · intro d hd
+    simp only [exOkYear, List.mem_map] at hd
+    obtain ⟨t, _, rfl⟩ := hd
+    rfl
+  · decide +kernel
+  · rfl
+  · decide +kernel
+  · decide +kernel
+
+example : done ((runDays exOk exOkYear).pl 1) 2024 = 2 ∧ done ((runDays exOk exOkYear).pl 2) 2024 = 2 := by
+  decide +kernel
+
+/-- `done_le_required_partial` applies to the January witness (every survey completes in 2024, a year
+with one required survey): hypotheses satisfiable although the calendar clause fails there -/
+example : CompletesOK cexCfg init
+    [{ date := ⟨2024, 1, 31⟩, out := allCompleted }, { date := ⟨2024, 2, 1⟩, out := allCompleted }] := by
+  unfold CompletesOK CompletesOK CompletesOK
+  refine ⟨?_, ?_, trivial⟩ <;> intro i _ <;> exact (by decide : 0 < required (cexCfg.P 0) 2024)
+
 end LdarModel.Sched
